@@ -2,14 +2,20 @@
 (***************************************************************************)
 (* SQLTx driven by a script instead of by non-determinism: the file        *)
 (* trace.ndjson holds one event per line                                   *)
-(*   {"ev":"reset","b":n}                  a new behaviour starts          *)
+(*   {"ev":"reset","b":n,"q":[..]}         a new behaviour starts; q = the *)
+(*                                         quirks it is to be run with     *)
 (*   {"ev":"step","b":n,"s":..,"k":..,"id":..,"u":..,"v":..,              *)
-(*    "chk":0|1,"out":..,"res":..,"cnt":..,"pk":..,"tbl":..}              *)
+(*    "chk":0|1,"ct":0|1,"out":..,"res":..,"cnt":..,"pk":..,"tbl":..}     *)
 (*                                         session s issues the statement; *)
 (*                                         with chk=1 the fields after it  *)
 (*                                         are what the real engine did    *)
-(*   {"ev":"scan","b":n,"rows":[[id,u,v],..]}  a full scan of the real     *)
-(*                                         table in a fresh read           *)
+(*                                         (ct=1: tbl was scanned)         *)
+(*   {"ev":"scan","b":n,"cmp":c,"rows":[[id,u,v],..]}  a full scan of the *)
+(*                                         real table in a fresh read:     *)
+(*                                         c=0 the rows must satisfy the   *)
+(*                                         declared constraints, c=1 and   *)
+(*                                         equal the model's table, c=2    *)
+(*                                         only equal the model's table    *)
 (* Uses (both with the very actions of SQLTx, Step(s, m)):                 *)
 (*  - prediction: what does the code as transcribed (Quirks = all) do on   *)
 (*    the behaviours TLC generated from the design?  (classification of    *)
@@ -26,10 +32,11 @@ EXTENDS SQLTx
 
 VARIABLES l,       \* next line of the trace
           b,       \* current behaviour
+          qv,      \* quirks the current behaviour is run with
           dead,    \* the current behaviour left the model
           mism,    \* first mismatch of the current behaviour: <<>> or <<line, field>>
           obsTbl   \* last scanned real table
-tvars == <<vars, l, b, dead, mism, obsTbl>>
+tvars == <<vars, l, b, qv, dead, mism, obsTbl>>
 
 Trace == ndJsonDeserialize("trace.ndjson")
 
@@ -38,10 +45,10 @@ ResetModel == /\ tbl' = EmptyTable
               /\ last' = Obs(0, St("init", 0, "", ""), "ok", NoRes, EmptyTable, "idle", FALSE, FALSE)
               /\ hist' = <<>> /\ fired' = {}
 
-TraceInit == Init /\ l = 1 /\ b = 0 /\ dead = FALSE /\ mism = <<>> /\ obsTbl = <<>>
+TraceInit == Init /\ l = 1 /\ b = 0 /\ qv = {} /\ dead = FALSE /\ mism = <<>> /\ obsTbl = <<>>
 
 Flush == (hist # <<>> \/ mism # <<>>) =>
-           PrintT(<<"JSON:", ToJson([b |-> b, steps |-> hist, fired |-> fired, dead |-> dead, mism |-> mism])>>)
+           PrintT(<<"JSON:", ToJson([b |-> b, q |-> qv, steps |-> hist, fired |-> fired, dead |-> dead, mism |-> mism])>>)
 
 Applicable(s, m) ==
   /\ sess[s].st # "closed" /\ sess[s].n < MaxStmts
@@ -53,33 +60,41 @@ Differs(e, o) ==
   ELSE IF e.out = "ok" /\ e.k \in QryKinds /\ e.res # o.res THEN "res"
   ELSE IF e.out = "ok" /\ e.k \in DmlKinds /\ e.cnt # o.cnt THEN "cnt"
   ELSE IF e.out = "ok" /\ e.k = "insA" /\ e.pk # o.pk THEN "pk"
-  ELSE IF e.tbl # o.tbl THEN "tbl"
+  ELSE IF e.ct = 1 /\ e.tbl # o.tbl THEN "tbl"
   ELSE ""
+
+\* a scanned real table satisfies the declared constraints (rows are <<id, u, v>>)
+RealCH(rows) ==
+  /\ \A i, j \in 1..Len(rows) : i # j => (rows[i][1] # rows[j][1] /\ rows[i][2] # rows[j][2])
+  /\ \A i \in 1..Len(rows) : rows[i][2] \in UVals /\ rows[i][3] \in VVals
+\* as an invariant (stops TLC at the first breach; the checks record the breach in mism instead)
+RealConstraintsHold == RealCH(obsTbl)
 
 TraceNext ==
   /\ l <= Len(Trace)
   /\ l' = l + 1
   /\ LET e == Trace[l] IN
      CASE e.ev = "reset" ->
-            /\ Flush /\ ResetModel /\ b' = e.b /\ dead' = FALSE /\ mism' = <<>> /\ obsTbl' = <<>>
+            /\ Flush /\ ResetModel /\ b' = e.b /\ qv' = {e.q[i] : i \in 1..Len(e.q)} /\ dead' = FALSE /\ mism' = <<>> /\ obsTbl' = <<>>
        [] e.ev = "scan" ->
-            /\ obsTbl' = e.rows
-            /\ mism' = IF mism = <<>> /\ ~dead /\ e.rows # TableSeq(tbl.rows) THEN <<l, "scan">> ELSE mism
-            /\ UNCHANGED <<vars, b, dead>>
+            /\ obsTbl' = IF e.cmp < 2 THEN e.rows ELSE obsTbl
+            /\ mism' = IF mism # <<>> \/ dead THEN mism
+                       ELSE IF e.cmp < 2 /\ ~RealCH(e.rows) THEN <<l, "breach">>
+                       ELSE IF e.cmp > 0 /\ e.rows # TableSeq(tbl.rows) THEN <<l, "scan">>
+                       ELSE mism
+            /\ UNCHANGED <<vars, b, qv, dead>>
        [] e.ev = "step" ->
             LET m == St(e.k, e.id, e.u, e.v) IN
             IF dead \/ ~Applicable(e.s, m)
-            THEN /\ dead' = TRUE /\ UNCHANGED <<vars, b, mism, obsTbl>>
-            ELSE /\ Step(e.s, m)
+            THEN /\ dead' = TRUE /\ UNCHANGED <<vars, b, qv, mism, obsTbl>>
+            ELSE /\ LET t == Transition(qv, tbl, sess, e.s, m)       \* SQLTx!Step with the behaviour's own quirk set
+                    IN /\ sess' = t.sess /\ tbl' = t.tbl /\ last' = t.obs
+                       /\ hist' = Append(hist, t.obs) /\ fired' = fired \cup t.obs.tags
                  /\ mism' = IF mism = <<>> /\ e.chk = 1 /\ Differs(e, last') # "" THEN <<l, Differs(e, last')>> ELSE mism
-                 /\ UNCHANGED <<b, dead, obsTbl>>
+                 /\ UNCHANGED <<b, qv, dead, obsTbl>>
 
 TraceSpec == TraceInit /\ [][TraceNext]_tvars
 
-\* every scanned real table satisfies the declared constraints (rows are <<id, u, v>>)
-RealConstraintsHold ==
-  /\ \A i, j \in 1..Len(obsTbl) : i # j => (obsTbl[i][1] # obsTbl[j][1] /\ obsTbl[i][2] # obsTbl[j][2])
-  /\ \A i \in 1..Len(obsTbl) : obsTbl[i][2] \in UVals /\ obsTbl[i][3] \in VVals
 
 \* the whole trace was consumed
 TraceAccepted == TLCGet("stats").diameter - 1 = Len(Trace)
